@@ -7,6 +7,7 @@ from functools import partial
 
 from common import Outcome, close, f2h, h2f, np, rng_for, run_driver
 
+RULE_ADDENDA = ('offsets 1e3 ... 1e8 and scales 1e-3 ... 30; int64/int32/int16/uint8/float32 arrays; updates on the unfitted streaming detector')
 LEVEL = "proof"
 EXPLANATION = ("Theorems (Lean): chunks are the Python slices and flatten to the sample, chunked kernel sums equal the full double sum, mmd = unbiased "
                "estimator for every valid chunk size with or without the precomputed reference term, permutation invariance, streaming = batch on the last "
